@@ -31,6 +31,8 @@ CONTENTS = [b"retry=5\nhost=example\ntimeout=30\nlog_target=syslog\nfvn=r\n", b"
             b"raw=\xff\xfe\x80\n[\xe6\x97\xa5\xe6\x9c\xac]\nk=\xe8\xaa\x9e\n  \xc3\x96l\n", b"esc=\x1b[1mbold\x1b[0m\nbell=a\x07b\x01\n",
             # per cent signs (what a printf format would take for conversions) in keys, values and section names
             b"%users=staff\ncpu%d=75\nmem%u=80\n100%=full\n[load%5.1f]\nrate=5%\n%s_fmt=%s %n %%\n",
+            # tab-separated keys and values, comments introduced by a backslash
+            b"\\ note\nkey\tvalue\nother\tv2 \\ trailing\n[S]\nk\tv\n",
             # the other comment character of a two-character --comment set
             b"; note\nk=v ; t\n[S]\n; d\nk2=w\n# e\nk3=x # f\n"]
 BAD = [b"[broken\nx=1\n", b"a=1\n[S] tail\n", b"a=1\nb=2\n[]\n", b"k v\n"]
@@ -47,7 +49,9 @@ def make(rng, sid, harness, tmpbase):
     # (delimiter bytes, comment bytes, spelling of --delimiters): escapes \t \n ... are translated by the tool
     delim, comment, dspell = rng.choice([(b"=", b"#", "="), (b"=", b"#", "="), (b":=", b"#;", ":="), (b" =", b"#", " ="),
                                          (b"=\t", b"#", "=\\t"), (b"\t=", b"#", "\\t="), (b"= \t", b"#", "= \\t"), (b":\x0c", b"#", ":\\f"),
-                                         (b"=\t\x0b", b";", "=\\t\\v")])
+                                         (b"=\t\x0b", b";", "=\\t\\v"),
+                                         # both options with a backslash: a tab written as an escape, and the backslash as comment character
+                                         (b"\t", b"\\", "\\t"), (b"=\t", b"\\#", "=\\t")])
     bad = rng.random() < 0.2
     files = {}
     if single:
